@@ -69,9 +69,10 @@ def tool_report_relevant(prop, tr):
 
 
 def plan_C01(tier, seed):
-    return dict(level="exploration", rule=RULE_ARENA + "; C01 oracle: interval map of live blocks vs ledger-held chunks",
-                shards=arena_shards(seed, tier, ["general", "alignment", "allocator"], 60, 600),
-                require={"c01.blocks_checked": 5000, "c01.zst_checked": 200}, assumptions=ASSUME_COMMON)
+    return dict(level="exploration", rule=RULE_ARENA + "; C01 oracle: interval map of live blocks vs ledger-held chunks; collections layer: the buffers (whole capacity) of live vectors, strings, boxes, boxed and leaked slices of one arena are pairwise disjoint",
+                shards=arena_shards(seed, tier, ["general", "alignment", "allocator"], 60, 600)
+                + [sh(e, "vecdiff", seed, 720 + i, iters=(200 if tier == "quick" else 3000), ops=150, tracked=i % 2) for i, e in enumerate(("debug", "release"))],
+                require={"c01.blocks_checked": 5000, "c01.zst_checked": 200, "c01.collection_blocks_checked_for_overlap": 20000}, assumptions=ASSUME_COMMON)
 
 
 def plan_C02(tier, seed):
@@ -229,6 +230,10 @@ def plan_C20(tier, seed):
             for eng in ("debug", "release"):
                 shards.append(sh(eng, "c20", seed, n, timeout=900, ma=ma, iters=(12 if q else 60), ops=(120 if q else 200), threads=(3 + n % 4)))
                 n += 1
+    # collections layer: operations that involve containers of two arenas
+    for i, eng in enumerate(("debug", "release")):
+        shards.append(sh(eng, "c20cross", seed, 600 + i, iters=(3000 if q else 60000)))
+    shards.append(sh("miri", "c20cross", seed, 610, timeout=1800, iters=(45 if q else 300)))
     # ThreadSanitizer: detector-oriented rounds + the trace workload
     for i in range(3 if q else 64):
         shards.append(sh("tsan", "c20race", seed, 200 + i, timeout=900, iters=(300 if q else 1500), threads=2 + i % 7))
@@ -243,8 +248,8 @@ def plan_C20(tier, seed):
                          miriflags="-Zmiri-preemption-rate=0.05"))
     return dict(level="exploration", required_engines=["debug", "release", "tsan"],
                 rule=("one evaluation = one comparison of an arena's per-call trace against its solo run: interleaved with other arenas on one thread, with one arena per thread (barriers between calls), "
-                      "or handed over between threads mid-history; plus detector rounds under ThreadSanitizer and Miri; distinct = distinct global interleaving signatures (hash of the observed order of (thread, call) tickets)"),
-                shards=shards, require={"c20.trace_entries_compared": 50000, "c20.thread_switches_observed": 2000, "c20.race_rounds": 1000, "c20.hand_over_runs": 20},
+                      "or handed over between threads mid-history; plus cross-arena collection operations (append / extend / splice / push_str between containers of two arenas: each container stays in, and is paid for by, its own arena); plus detector rounds under ThreadSanitizer and Miri; distinct = distinct global interleaving signatures (hash of the observed order of (thread, call) tickets)"),
+                shards=shards, require={"c20.trace_entries_compared": 50000, "c20.thread_switches_observed": 2000, "c20.race_rounds": 1000, "c20.hand_over_runs": 20, "c20.cross_arena_growth_watched": 4000},
                 assumptions=ASSUME_COMMON + ["twin runs use a deterministic-placement allocator mode (chunk base = align mod 8192) so that placement relative to the chunk base depends only on the arena's own history",
                                              "race detectors only see the schedules that occurred; TSan runs are repeated with 2-8 threads, Miri with several scheduler seeds"])
 
